@@ -579,6 +579,27 @@ func (r *Runner) compareLogs(model, real []Entry, id int64, res *StepResult) {
 			}
 		}
 	}
+	// OnRetry announces the attempt that is about to run: the function entered next with the same attempt number (if the
+	// attempt gets that far) reads the same AttemptStartTime, and that time is not earlier than the moment at which the
+	// retry was scheduled
+	{
+		for i, g := range real {
+			if g.Name != "OnRetry" || !g.HasLast || g.AttemptStart.IsZero() {
+				continue
+			}
+			for _, f := range real[i+1:] {
+				if f.Name == "OnRetry" && f.Pol == g.Pol {
+					break
+				}
+				if f.Pol == PolFunction && f.A == g.A && !f.AttemptStart.IsZero() {
+					if !f.AttemptStart.Equal(g.AttemptStart) {
+						bad("stats/retry", "retry#%d.OnRetry for attempt %d reports AttemptStartTime %d; the function, entered for that attempt, reads %d", g.Pol, g.A, g.AttemptStart.UnixNano(), f.AttemptStart.UnixNano())
+					}
+					break
+				}
+			}
+		}
+	}
 }
 
 func (r *Runner) compareState(res *StepResult) {
